@@ -1,0 +1,3 @@
+// Package verifhooks re-exports internal components for runtime verification harnesses.
+// It is empty unless the verif build tag is set.
+package verifhooks
